@@ -220,14 +220,24 @@ func c09Differential(r *Run, cfg *Stream) {
 					line += fmt.Sprintf(" body=%x ct=%q", hashString(string(resp.Body)), resp.CT)
 				}
 				traces[wi] = append(traces[wi], line)
-				// a listing with a delimiter after every request
-				_, lp := w.ListPage("bkt", url.Values{"delimiter": {"/"}, "maxResults": {"3"}})
-				if lp != nil {
+				// a complete paged listing with a delimiter after every request (page size 1..3)
+				mr := fmt.Sprint(1 + len(traces[wi])%3)
+				q := url.Values{"delimiter": {"/"}, "maxResults": {mr}}
+				for page := 0; page < 40; page++ {
+					_, lp := w.ListPage("bkt", q)
+					if lp == nil {
+						traces[wi] = append(traces[wi], "list failed")
+						break
+					}
 					var it []string
 					for _, x := range lp.Items {
 						it = append(it, ranks.meta(x))
 					}
-					traces[wi] = append(traces[wi], fmt.Sprintf("list items=%v prefixes=%v more=%v", it, lp.Prefixes, lp.Next != ""))
+					traces[wi] = append(traces[wi], fmt.Sprintf("list(maxResults=%s) page %d items=%v prefixes=%v more=%v", mr, page, it, lp.Prefixes, lp.Next != ""))
+					if lp.Next == "" {
+						break
+					}
+					q = url.Values{"delimiter": {"/"}, "maxResults": {mr}, "pageToken": {lp.Next}}
 				}
 				return true
 			}}
